@@ -50,10 +50,36 @@ type c14Case struct {
 	framing string // cl | stream
 	sizes   []int
 
+	// attempt sequences (lane resend): the first preCount requests of the case are answered with
+	// preStatus (307 back to the same URL, or 503) instead of the response proper
+	preStatus, preCount int
+
 	// filled by the origin
 	mu     sync.Mutex
 	seen   bool
 	seenAE []string
+	aeLog  []string // Accept-Encoding of every request seen for the case ("none", or values joined by |)
+	served int
+}
+
+// c14JoinAE renders the Accept-Encoding values one request carried.
+func c14JoinAE(vs []string) string {
+	if len(vs) == 0 {
+		return "none"
+	}
+	return strings.Join(vs, "|")
+}
+
+// note records what a request for the case carried; it reports whether the request is to be
+// answered with the case's pre-status instead of the response proper.
+func (c *c14Case) note(ae []string) (pre bool) {
+	c.mu.Lock()
+	defer c.mu.Unlock()
+	c.seen = true
+	c.seenAE = append([]string(nil), ae...)
+	c.aeLog = append(c.aeLog, c14JoinAE(ae))
+	c.served++
+	return c.served <= c.preCount
 }
 
 type c14Origin struct {
@@ -75,10 +101,14 @@ func (o *c14Origin) ServeHTTP(w http.ResponseWriter, r *http.Request) {
 		http.Error(w, "no such case", 500)
 		return
 	}
-	c.mu.Lock()
-	c.seen = true
-	c.seenAE = append([]string(nil), r.Header.Values("Accept-Encoding")...)
-	c.mu.Unlock()
+	if c.note(r.Header.Values("Accept-Encoding")) {
+		if c.preStatus/100 == 3 {
+			w.Header().Set("Location", "/")
+		}
+		w.Header().Set("Content-Length", "0")
+		w.WriteHeader(c.preStatus)
+		return
+	}
 	h := w.Header()
 	for _, v := range c.ce {
 		h.Add("Content-Encoding", v)
@@ -359,14 +389,16 @@ func (e *c14Env) run(c *c14Case) (o c14Obs) {
 		o.rtErr = err.Error()
 		return
 	}
+	c14Observe(c, resp.Response, &o)
+	return
+}
+
+// c14Observe reads what the caller can see of a delivered response (and what the origin saw of
+// the request that provoked it) into o.
+func c14Observe(c *c14Case, hr *http.Response, o *c14Obs) {
 	c.mu.Lock()
-	if len(c.seenAE) == 0 {
-		o.ae = "none"
-	} else {
-		o.ae = strings.Join(c.seenAE, "|")
-	}
+	o.ae = c14JoinAE(c.seenAE)
 	c.mu.Unlock()
-	hr := resp.Response
 	for _, k := range c14Tracked {
 		for _, v := range hr.Header[k] {
 			o.hdr = append(o.hdr, k, v)
@@ -395,7 +427,6 @@ func (e *c14Env) run(c *c14Case) (o c14Obs) {
 	}); bad {
 		o.panicText = "Body.Read: " + p
 	}
-	return
 }
 
 // corrupted: the encoded stream itself was damaged (bit flip, truncation with matching framing).
